@@ -80,7 +80,7 @@ def equivalent(a, b):
         try:
             fa = float(int(a[1], 16)) if a[1][:2] in ("0x", "0X") else float(a[1])
             fb = float(int(b[1], 16)) if b[1][:2] in ("0x", "0X") else float(b[1])
-            return fa == fb or abs(fa - fb) <= 1e-6 * max(abs(fa), abs(fb))
+            return fa == fb                                  # all float fields of the grammar are f64: the value is kept exactly
         except ValueError:
             return False
     if a[0] == "cmt":
